@@ -105,7 +105,8 @@ def script_line(c, sandbox):
     raise MachineryError("no script form for " + k)
 
 
-def run_history(exe, calls, sandbox_root, hid, setup=(), argv=(), env=(), ls_after=("open", "write", "pwrite"), timeout=60, native_preopen=False, bad_preopens=False):
+def run_history(exe, calls, sandbox_root, hid, setup=(), argv=(), env=(), ls_after=("open", "write", "pwrite"), timeout=60, native_preopen=False, bad_preopens=False,
+                closed_at_start=()):
     """Run one history in a fresh sandbox and process.  Returns (records per call incl. ls, stderr, rc)."""
     sb = os.path.join(sandbox_root, "sb%s" % hid)
     shutil.rmtree(sb, ignore_errors=True)
@@ -132,9 +133,19 @@ def run_history(exe, calls, sandbox_root, hid, setup=(), argv=(), env=(), ls_aft
             index.append(("ls", j))
     sf = os.path.join(sandbox_root, "script%s.txt" % hid)
     open(sf, "w").write("\n".join(lines) + "\n")
-    rc, out, err = run([exe, sb, sf, *argv, "--", *env], timeout=timeout,
-                       env=dict({"ASAN_OPTIONS": "detect_leaks=0:abort_on_error=0:exitcode=97"}, **({"VERIF_PREOPEN_NATIVE": "1"} if native_preopen else {}),
-                                **({"VERIF_BAD_PREOPENS": "1"} if bad_preopens else {})))
+    renv = dict({"ASAN_OPTIONS": "detect_leaks=0:abort_on_error=0:exitcode=97"}, **({"VERIF_PREOPEN_NATIVE": "1"} if native_preopen else {}),
+                **({"VERIF_BAD_PREOPENS": "1"} if bad_preopens else {}))
+    if closed_at_start:
+        # the host process is started with some of its standard streams CLOSED (cmd <&- 2>&-): not redirected, absent
+        import subprocess
+        try:
+            p_ = subprocess.run([exe, sb, sf, *argv, "--", *env], stdout=subprocess.PIPE, stderr=subprocess.PIPE, timeout=timeout, env=dict(os.environ, **renv),
+                                preexec_fn=lambda: [os.close(f_) for f_ in closed_at_start])
+            rc, out, err = p_.returncode, p_.stdout.decode("utf8", "replace"), p_.stderr.decode("utf8", "replace")
+        except subprocess.TimeoutExpired:
+            rc, out, err = -999, "", ""
+    else:
+        rc, out, err = run([exe, sb, sf, *argv, "--", *env], timeout=timeout, env=renv)
     recs = []
     for l in out.splitlines():
         try:
